@@ -36,4 +36,9 @@ CASES = [
              new="            if remaining[0] > 0:\n                remaining[0] -= 1\n                observer.on_next(value)\n                if not remaining[0]:")]),
     dict(expect="silent", desc="catch: constant hoisted (immutable)", edits=[
         dict(file=CATCH, old="    def subscribe(\n        observer: abc.ObserverBase[_T], scheduler_", new="    label = 'catch'\n\n    def subscribe(\n        observer: abc.ObserverBase[_T], scheduler_")]),
+    dict(expect="fire", desc="seed C04-r2/2: average accumulator updates the shared seed in place", names="E1-pure-accumulator", edits=[dict(file="reactivex/operators/_average.py",
+         old="        return AverageValue(sum=prev.sum + cur, count=prev.count + 1)", new="        prev.sum += cur\n        prev.count += 1\n        return prev")]),
+    dict(expect="fire", desc="seed C06-r2/1: scan keeps its accumulator in the operator closure (defer dropped)", names="E1-no-early-state", edits=[dict(file="reactivex/operators/_scan.py",
+         old="    def factory(scheduler: abc.SchedulerBase) -> Observable[_TState]:\n        has_accumulation = False\n        accumulation: _TState = cast(_TState, None)\n",
+         new="    has_accumulation = False\n    accumulation: _TState = cast(_TState, None)\n\n    def factory(scheduler: abc.SchedulerBase) -> Observable[_TState]:\n")]),
 ]
